@@ -72,6 +72,13 @@ def desugar(loc, relfile, fn_paths, rules):
                     rewrites.append((v["call"][0], v["call"][1], new))
                     records.append({"fn": fp, "rule": "D3 X.iter().filter(|p| C).copied().collect::<Vec<_>>()  =>  { let mut out = Vec::new(); for p in X.iter() { if C { out.push(*p); } } out }",
                                     "original": src[v["call"][0]:v["call"][1]], "rewritten": new})
+                elif v["rule"] == "D14":
+                    recv = src[v["recv"][0]:v["recv"][1]]
+                    pat = src[v["pat"][0]:v["pat"][1]]
+                    new = ("let mut pv_i: usize = 0; while pv_i < " + recv + ".len() { let " + pat + " = " + recv + "[pv_i]; pv_i += 1;")
+                    rewrites.append((v["call"][0], v["call"][1], new))
+                    records.append({"fn": fp, "rule": "D14 for p in X.iter().copied() { B }  =>  let mut i = 0; while i < X.len() { let p = X[i]; i += 1; B }   (Verus for-loops do not support `continue`)",
+                                    "original": src[v["call"][0]:v["call"][1]], "rewritten": new})
                 elif v["rule"] == "D13":
                     recv = src[v["recv"][0]:v["recv"][1]]
                     pat = src[v["pat"][0]:v["pat"][1]]
